@@ -3,8 +3,20 @@
 R1  lazy router compilation: writes reachable from find() only under the
     compile lock, re-checked under the lock, the finder published after the
     tables were built, current tables re-read after the lock.
+    The finder call of find() / of the stub may sit in ONE same-class helper
+    method (write-free, exactly one finder call; its parameters are bound to
+    the caller's arguments): the order clause "finder slot loaded before the
+    tables are read" is then decided inside the helper (a table bound to a
+    local / a local tuple before ``self.<slot>`` is loaded, or evaluated by
+    find() and passed in, is a violation; ``f = self.<slot>`` first, or the
+    tables read inside the call's own argument list, is fine).
 R2  no per-request state on shared objects: nothing reachable from the
-    request-path entry points of the shared classes stores into ``self``.
+    request-path entry points of the shared classes stores into ``self`` --
+    directly, or THROUGH A LOCAL ALIAS of state reachable from self (may-alias
+    forward dataflow; a rebinding to a fresh copy kills the alias).  The
+    request path includes the process_request/resource/response[_ws|_async]
+    and __call__ methods of every class of falcon.middleware (derived,
+    printed as c19_middleware_request_path).
 R3  shared-state inventory: module-level mutable objects, mutable default
     arguments, class-level attributes of per-request classes; every survivor
     is on a frozen, reasoned allow-list whose side condition is re-checked.
